@@ -217,6 +217,49 @@ func (r *renderer) renderInlined(call *ssa.Call, f *ssa.Function, idx int, d int
 	seen := map[string]bool{}
 	var alts []string
 	okAll := true
+	// (value, ok) helpers: when every use of the value lies behind the ok result being true, the returns that report failure contribute no alternative
+	okIdx := -1
+	if rs := f.Signature.Results(); rs.Len() >= 2 && idx < rs.Len() {
+		for k := 0; k < rs.Len(); k++ {
+			if k != idx && isBoolT(rs.At(k).Type()) {
+				okIdx = k
+			}
+		}
+	}
+	dropFailures := false
+	if okIdx >= 0 && call.Parent() != nil && call.Referrers() != nil {
+		var okVal, val ssa.Value
+		for _, r := range *call.Referrers() {
+			if ex, isEx := r.(*ssa.Extract); isEx {
+				if ex.Index == okIdx {
+					okVal = ex
+				}
+				if ex.Index == idx {
+					val = ex
+				}
+			}
+		}
+		if okVal != nil && val != nil && val.Referrers() != nil {
+			pass := condEdges(call.Parent(), func(cv ssa.Value) (bool, bool) {
+				if cv == okVal {
+					return true, true
+				}
+				if u, isU := cv.(*ssa.UnOp); isU && u.Op == token.NOT && u.X == okVal {
+					return true, false
+				}
+				return false, false
+			})
+			dropFailures = len(pass) > 0
+			for _, u := range *val.Referrers() {
+				if _, isDbg := u.(*ssa.DebugRef); isDbg {
+					continue
+				}
+				if !guardedBy(call.Parent(), u, pass) {
+					dropFailures = false
+				}
+			}
+		}
+	}
 	for _, b := range f.Blocks {
 		ret, isR := b.Instrs[len(b.Instrs)-1].(*ssa.Return)
 		if !isR {
@@ -226,6 +269,11 @@ func (r *renderer) renderInlined(call *ssa.Call, f *ssa.Function, idx int, d int
 		if idx >= len(res) {
 			okAll = false
 			break
+		}
+		if dropFailures {
+			if k, isC := res[okIdx].(*ssa.Const); isC && k.Value != nil && k.Value.String() == "false" {
+				continue
+			}
 		}
 		s := r.render(res[idx], d+1)
 		if !seen[s] {
@@ -239,7 +287,13 @@ func (r *renderer) renderInlined(call *ssa.Call, f *ssa.Function, idx int, d int
 		return "", false
 	}
 	for _, a := range alts {
-		if strings.Contains(a, "alloc:") {
+		rest := a
+		for _, p := range f.Params {
+			if as := ns[p]; len(as) > 3 {
+				rest = strings.ReplaceAll(rest, as, "")
+			}
+		}
+		if strings.Contains(rest, "alloc:") {
 			return "", false // the helper builds its result in local storage the renderer cannot express: keep the call
 		}
 	}
